@@ -20,6 +20,12 @@ CLAIMED = {
          "independence), C04_fen, C04_start: the incremental key equals the from-scratch key. Holds for any table. Tie: zkey, ZKey::from "
          "and the model key compared at every node and every successor.",
          TB + "same wfb/move_okb hypotheses as C02.", "Coq proof (XOR algebra over atoms, induction over operation lists) + walk correspondence"),
+ "C05": ("Theorems over the table of the RUNNING engine (regenerated each run): C05_table_ok (no XOR of 1-4 distinct words is 0, decided by the "
+         "kernel VM over all 304590 pairs), C05_every_component_hashed (the key is the XOR of the words of the atoms present), C05_small_diff (ANY two "
+         "positions differing in 1..4 atoms have different keys: every single-component change and more), C05_side_to_move. Tie: engine key vs model "
+         "key at every node + on a perturbation sweep; engine keys must change under every single-component perturbation. PARTIAL: full injectivity is "
+         "false by counting and not claimed; pairs differing in >= 5 atoms are covered only by the exploration (distinct identities vs keys).",
+         TB + "injectivity beyond 4 atoms is NOT proved (impossible); exploration only.", "Coq proof (finite table check by vm_compute lifted by XOR algebra) + key correspondence + perturbation sweep"),
  "C06": ("Theorems C06_rook/bishop/queen: for every square and EVERY occupancy in N the modelled magic lookup equals the sliding-ray "
          "attack set (finite sweep over all 107648 (square, subset-of-mask) entries by the kernel VM, lifted by proved completeness of the "
          "subset enumeration and the last-square-irrelevance lemma); leaper tables by 64-entry sweeps. Tie: constants regenerated from the "
@@ -73,7 +79,6 @@ PENDING = {
  "C04": "proof file proofs/BoardProofs.v (key invariance) still being completed in this revision; keys are compared at every node of the board correspondence",
  "C01": "proof of the move generator against spec/Rules.v not finished in this revision; the model-vs-engine and model-vs-spec comparison already runs inside the C02-C04 correspondence (see DESIGN.md)",
  "C03": "refinement proof make_move |= Rules.apply not finished in this revision; bookkeeping is compared engine vs model vs spec on every walk (see DESIGN.md)",
- "C05": "table theorem and perturbation sweep not built yet in this revision",
  "C07": "spec reader and parse theorem not built yet in this revision; the FEN model is exercised by every correspondence case",
  "C12": "mate-level theorems with the cache on not built yet in this revision",
 }
